@@ -9,6 +9,17 @@ import (
 
 func asFloat(v Value) *Term { return v.(VFloat).t }
 
+// exactFloatObl: the integer model of a float64 round trip is exact only below 2^53; unless the range analysis
+// already shows it, "the value can reach 2^53 in magnitude" becomes an obligation that must be unsatisfiable
+func (x *Exec) exactFloatObl(fr *Frame, y *Term, p token.Pos) {
+	if y.lo > -(1<<53) && y.hi < (1<<53) {
+		return
+	}
+	lim := mkConstS(y.w, 1<<53)
+	big := mkOr(mkCmp(OSle, lim, y), mkCmp(OSle, y, mkNeg(lim)))
+	x.addObl("unwind", "integer model of a float64 conversion needs |value| < 2^53", x.framePos(fr, p), mkAnd(fr.cur, big), ts.False)
+}
+
 func init() {
 	st := func(name string, f StubFn) { stubs[name] = f }
 	// when the user/group manager is stubbed (extra_stubs) it behaves like a manager without limits
@@ -68,6 +79,12 @@ func init() {
 	})
 	st("math.Abs", func(x *Exec, fr *Frame, fn *ssa.Function, a []Value, p token.Pos) Value {
 		f := asFloat(a[0])
+		// |float64(x)| for an exactly representable integer x is float64(|x|): keep the computation on integers
+		if f.op == OSToF {
+			xi := f.a[0]
+			x.exactFloatObl(fr, xi, p)
+			return VFloat{mkIntToF(mkIte(mkCmp(OSlt, xi, mkConst(xi.w, 0)), mkNeg(xi), xi), true)}
+		}
 		return VFloat{mkIte(mkFCmp(OFLt, f, mkFConst(0)), mkFUn(OFNeg, f), f)}
 	})
 	st("math.Max", func(x *Exec, fr *Frame, fn *ssa.Function, a []Value, p token.Pos) Value {
